@@ -64,6 +64,7 @@ SPEC = [
     ("ledger.pin", "BasePin", ["is_valid"]),
     ("admin.certificate_v1", "HSMCertificate", ["validate_and_get_values"]),
     ("admin.certificate_v2", "HSMCertificateV2", ["validate_and_get_values"]),
+    ("ledger.hsm2dongle", "_Error", ["is_user_defined_error"]),
     ("ledger.signature", "HSM2DongleSignature", ["__init__"]),
     ("ledger.parameters", "HSM2FirmwareParameters", ["__init__", "from_dongle_format"]),
     ("admin.utils", None, ["hex_or_decimal_string_to_int"]),
